@@ -185,7 +185,9 @@ claimed["C16"] = (
     "operations are these functions and touch no other slot; as a join member a change set has exactly its keys, a join "
     "visits each index of the intersection once, the item handed out is the accumulated amount (taken out when joined by "
     "value, updated in place when joined mutably, untouched when shared), and a change set joined by value is empty "
-    "afterwards. Tie: ChangeSet<Amt> slots driven through new / add / collect / extend / clear with repeated and dead "
+    "afterwards; for any tuple around the change-set member and any keys (on the maps, to which the real join refines): "
+    "the amount paired with index j is the amount accumulated for j when the join started, every visited amount is "
+    "combined / taken exactly once and the amounts of other indices are untouched. Tie: ChangeSet<Amt> slots driven through new / add / collect / extend / clear with repeated and dead "
     "handles, joined by reference, mutably and by value with storages, entities and bit sets through the real impls; "
     "rows and dumps compared with the specification.", "5.C16")
 claimed["C08"] = (
